@@ -318,7 +318,14 @@ class Evaluator:
                 r = self._loop(self.sx.loops[e[2]], loc)
                 if r:
                     return r
-            elif kind in ("store", "call", "setitem"):
+            elif kind == "call":
+                t = e[2]
+                own = (t[0] == "mcall" and t[1] == ("v", "self")) or t[0] == "apply" or \
+                    (t[0] == "call" and t[1] in self.sx.func.mod.funcs)
+                if own and self.truth(e[0], loc):
+                    # a helper of the repository that was not inlined may raise: the outcome of this witness is unknown
+                    raise EvalUnsupported("call of `%s` was not resolved (helper nesting deeper than the inlining bound)" % show(t)[:80])
+            elif kind in ("store", "setitem"):
                 continue
         return None
 
